@@ -155,6 +155,12 @@ for k in bad_kinds + ['clean', 'cbc-etm', 'legacy-unknown']:
     alone[k] = st
 def rank(s):
     return RANK.index(s) if s in RANK else len(RANK)
+# a target that cannot be reached or answers nonsense is a connection error (status 1, an "[exception] ..." message), never an internal error
+for k in bad_kinds:
+    cases += 1
+    st, out = F.run_main(['-n', '--skip-rate-test', 'x.test'], F.FakeNet({'x.test': mk(k)}))
+    if st != exitcodes.CONNECTION_ERROR:
+        fail({'single target': k}, {'status': st, 'tail': out.strip().split('\n')[-1][:120]}, {'status': 1}, 'bad-target-status')
 for bad in bad_kinds:
     for pos in (0, 1, 2):
         kinds = ['clean', 'cbc-etm']
@@ -189,6 +195,27 @@ for bad in bad_kinds:
                         for h, k in zip(hosts, kinds):
                             if k in ARCH and not any(('(gen) target: %%s' %% h) in b.split('\n') for b in blocks):
                                 fail(dict(inp, host=h), 'no report for the healthy target', 'one result block per target', 'lost-report')
+# inside a list: the block of a target that cannot be reached is its error message, not a stack trace; bare IPv6 literals are legal lines
+for bad, line in (('unresolvable', 'nosuch.test'), ('refused', 'r.test'), ('unresolvable', '2001:db8::beef'), ('unresolvable', 'fe80::1'), ('unresolvable', '[2001:db8::7]:2222')):
+    for threads in (1, 2):
+        cases += 1
+        hosts = ['ok1.test', line, 'ok2.test']
+        path = targets_file(hosts)
+        try:
+            net = F.FakeNet({'ok1.test': mk('clean'), 'ok2.test': mk('cbc-etm'), 'r.test': mk('refused')})
+            st, out = F.run_main(['-n', '--skip-rate-test', '-T', path, '--threads', str(threads)], net)
+        finally:
+            os.unlink(path)
+        inp = {'targets': hosts, 'threads': threads}
+        blocks = split_blocks(out)
+        want = max([alone['clean'], alone['cbc-etm'], exitcodes.CONNECTION_ERROR], key=rank)
+        if st != want:
+            fail(inp, {'exit status': st, 'tail': out.strip().split('\n')[-1][:160]}, {'status': want}, 'bad-line-status')
+        if len(blocks) != 3 or 'Traceback (most recent call last)' in out:
+            fail(inp, {'result blocks': len(blocks), 'traceback': 'Traceback (most recent call last)' in out}, {'blocks': 3, 'traceback': False}, 'bad-line-blocks')
+        for h in ('ok1.test', 'ok2.test'):
+            if not any(('(gen) target: %%s' %% h) in b.split('\n') for b in blocks):
+                fail(dict(inp, host=h), 'no report for the healthy target', 'one result block per target', 'bad-line-lost-report')
 # the run's status is the highest-ranked target status, whatever the order of the targets
 mix = ['clean', 'cbc-etm', 'legacy-unknown', 'refused']
 for r in (2, 3):
